@@ -1,5 +1,5 @@
 # /verif framework build: Java overrides for TLC, syntax check of every specification, binding self-tests.
-.PHONY: setup java sany selftest manifest
+.PHONY: setup java sany selftest manifest extras sweep
 setup: java sany selftest
 java:
 	mkdir -p build/java
@@ -10,3 +10,9 @@ selftest:
 	python3 tools/selftest.py
 manifest:
 	python3 tools/mkmanifest.py
+# specifications beyond the listed properties (not in MANIFEST.json): evidence goes to evidence-extra/
+extras:
+	bin/check X01
+# every seeded change against the check that is expected to detect it (about an hour)
+sweep:
+	python3 tools/seedsweep.py -j 3
